@@ -251,6 +251,16 @@ class Check(DiffCheck):
             return 'tasks not run exactly once / call() returned early / wrong delete count (id kind:runs.fin.del.flag): ' + m.group(3)[:300]
         return None
 
+    @staticmethod
+    def run_retry(exe, cases, tmp, tag, **kw):
+        """run_cases, repeated while the loader reports libphoton.so being re-linked by a concurrent check (infrastructure, not a result)"""
+        for attempt in range(6):
+            got = run_cases(exe, cases, tmp, '%s%d' % (tag, attempt), **kw)
+            if not any('error while loading shared libraries' in (g or '') for g in got):
+                return got
+            time.sleep(30)
+        return got
+
     def extra(self, ctx):
         out = []
         cov = self.extra_coverage = {}
@@ -276,7 +286,7 @@ class Check(DiffCheck):
         if ctx.get('impl_exe'):
             wit = [F1_WITNESS, F1_WITNESS.replace('interrupt 2 108', 'interrupt 2 110'),
                    F1_WITNESS.replace('wp 0 4', 'wp -1 4'), F1_WITNESS.replace('wp 0 4', 'wp 2 4').replace('wp_tt', 'wp_pt')]
-            got = run_cases(ctx['impl_exe'], wit, tmp, 'f37', nshards=1, timeout=900, env=self.impl_env())
+            got = self.run_retry(ctx['impl_exe'], wit, tmp, 'f37', nshards=1, timeout=900, env=self.impl_env())
             repro = [(c, g) for c, g in zip(wit, got) if analyse(c, (g or '').strip())]
             cov['finding_F37_witnesses_pass'] = not repro
             if repro and not any(f.get('status') == 'known' and 'ESHUTDOWN' in f.get('what', '') for f in load_known_findings(self.id)):
@@ -291,7 +301,7 @@ class Check(DiffCheck):
             return out
         mt = self.gen_mt(ctx['tier'], ctx['rng'])
         env = DiffCheck.impl_env(self)
-        got = run_cases(exe, mt, tmp, 'mt', nshards=min(len(mt), 6), timeout=3000, env=env)
+        got = self.run_retry(exe, mt, tmp, 'mt', nshards=min(len(mt), 6), timeout=3000, env=env)
         ntasks = 0
         for c, g in zip(mt, got):
             o = self.mt_oracle(c, g)
